@@ -72,10 +72,9 @@ Lemma t_add_rule_spec t r m t' : t_add_rule t r m = Ok t' ->
   (forall e, In e t -> In e t') /\ (forall e, In e t' -> In e t \/ snd e = m).
 Proof.
   unfold t_add_rule. destruct (t_add t (rmain r) m) as [[t1 b]| | |] eqn:E; cbn [bind]; try discriminate.
-  apply t_add_spec in E. destruct E as [E1 E2]. cbn [fst snd]. destruct b.
-  - intro H. apply t_add_all_spec in H. destruct H as [H1 H2]. split; intros e He; auto.
-    destruct (H2 e He) as [H|H]; [apply E2 in H; exact H|right; exact H].
-  - intro H; inversion H; subst. split; auto.
+  apply t_add_spec in E. destruct E as [E1 E2]. cbn [fst snd].
+  intro H. apply t_add_all_spec in H. destruct H as [H1 H2]. split; intros e He; auto.
+  destruct (H2 e He) as [H|H]; [apply E2 in H; exact H|right; exact H].
 Qed.
 Lemma t_add_rules_spec rs : forall t m t', t_add_rules t rs m = Ok t' ->
   (forall e, In e t -> In e t') /\ (forall e, In e t' -> In e t \/ snd e = m).
@@ -731,12 +730,21 @@ Definition all_bound (t : trie) (ds : list mdesc) : Prop :=
 
 Lemma t_add_bound t k m : kvalid k = true -> t_lookup t (knode k) (kverb k) = Some m -> t_add t k m = Ok (t, false).
 Proof. intros V L. unfold t_add. rewrite V, L, Nat.eqb_refl. reflexivity. Qed.
+Lemma t_add_all_bound t m ks :
+  (forall k, In k ks -> kvalid k = true /\ t_lookup t (knode k) (kverb k) = Some m) -> t_add_all t ks m = Ok t.
+Proof.
+  induction ks as [|k ks IH]; intro H; cbn [t_add_all]; [reflexivity|].
+  rewrite t_add_bound; [| apply H; left; reflexivity ..]. cbn [bind fst].
+  apply IH. intros k' Hk. apply H. right. exact Hk.
+Qed.
 Lemma t_add_rules_bound t m rs :
   (forall k, In k (flat_map rule_keys rs) -> kvalid k = true /\ t_lookup t (knode k) (kverb k) = Some m) ->
   t_add_rules t rs m = Ok t.
 Proof.
   induction rs as [|r rs IH]; intro H; cbn [t_add_rules]; [reflexivity|].
   unfold t_add_rule. rewrite t_add_bound; [| apply H; cbn; left; reflexivity ..]. cbn [bind fst snd].
+  rewrite t_add_all_bound; [|intros k Hk; apply H; cbn [flat_map]; apply in_or_app; left; unfold rule_keys; right; exact Hk].
+  cbn [bind].
   apply IH. intros k Hk. apply H. cbn [flat_map]. apply in_or_app. right. exact Hk.
 Qed.
 Lemma process_bound ds : forall s o n acc, all_bound (spath s) ds ->
